@@ -473,9 +473,81 @@ func (m *machine) Step(op Op) error {
 			m.derived = true
 		}
 
+	case "bulk":
+		// grows a list by 63-4097 cheap scalars at once (sizes around powers of two), so that the later
+		// steps of the program work on a list far beyond the sizes single steps reach
+		n := m.list(op.T)
+		k := bulkSizes[op.A%len(bulkSizes)]
+		if len(n.elems)+k > bulkCap {
+			return nil
+		}
+		vs := bulkVals(k, op.B)
+		l := n.impl.(at.List)
+		if err := m.expectPanic(fmt.Sprintf("Add of %d scalars", k), false, func() {
+			switch op.Flavor % 3 {
+			case 0:
+				l.Add(goVals(vs)...)
+			case 1:
+				for _, v := range vs {
+					l.Add(v.goValue())
+				}
+			default:
+				for i := 0; i < len(vs); i += 100 {
+					l.Add(goVals(vs[i:min(i+100, len(vs))])...)
+				}
+			}
+		}); err != nil {
+			return err
+		}
+		n.elems = append(n.elems, vs...)
+		m.noteMutation(n)
+		m.st.Count(fmt.Sprintf("bulk.kind%d", op.B%4))
+
+	case "bigset":
+		// gives an object 65-300 more fields (one Set call, one call per field, or calls of 50 pairs)
+		n := m.object(op.T)
+		k := bigsetSizes[op.A%len(bigsetSizes)]
+		if len(n.fields)+k > 700 {
+			return nil
+		}
+		o := n.impl.(at.Object)
+		fields := cloneFields(n.fields)
+		var args []any
+		for i := 0; i < k; i++ {
+			key := fmt.Sprintf("b%d_%04d", op.B%3, (i*37)%k)
+			v := bulkVals(1, op.B+i)[0]
+			if op.B%4 == 3 {
+				v = mval{k: KInt, i: i}
+			}
+			fields[key] = v
+			args = append(args, key, v.goValue())
+		}
+		if err := m.expectPanic(fmt.Sprintf("Set of %d fields", k), false, func() {
+			switch op.Flavor % 3 {
+			case 0:
+				o.Set(args...)
+			case 1:
+				for i := 0; i < len(args); i += 2 {
+					o.Set(args[i], args[i+1])
+				}
+			default:
+				for i := 0; i < len(args); i += 100 {
+					o.Set(args[i:min(i+100, len(args))]...)
+				}
+			}
+		}); err != nil {
+			return err
+		}
+		n.fields = fields
+		m.noteMutation(n)
+		m.st.Count("bigset")
+
 	case "concat":
 		n := m.list(op.T)
 		o := m.list(op.U)
+		if len(n.elems)+len(o.elems) > 2*bulkCap {
+			return nil
+		}
 		var r at.List
 		if err := m.expectPanic("Concat", false, func() { r = n.impl.(at.List).Concat(o.impl.(at.List)) }); err != nil {
 			return err
@@ -944,6 +1016,42 @@ func (m *machine) Step(op Op) error {
 	return nil
 }
 
+var bulkSizes = []int{63, 64, 65, 127, 128, 129, 255, 256, 257, 511, 513, 1023, 1024, 1025, 2049, 4097}
+var bigsetSizes = []int{65, 100, 129, 200, 257, 300}
+
+const bulkCap = 9000
+
+// bulkVals makes k scalars from a seed: kind 0 ints from a small range (many duplicates), 1 distinct ints in a
+// scrambled order, 2 short strings, 3 all five scalar kinds in turn.
+func bulkVals(k, seed int) []mval {
+	out := make([]mval, k)
+	for i := range out {
+		x := (i*7919 + seed) % 100003
+		switch seed % 4 {
+		case 0:
+			out[i] = mval{k: KInt, i: x % 7}
+		case 1:
+			out[i] = mval{k: KInt, i: ((i*7919+seed)%k)*3 - k}
+		case 2:
+			out[i] = mval{k: KString, s: fmt.Sprintf("s%d", x%50)}
+		default:
+			switch i % 5 {
+			case 0:
+				out[i] = mval{k: KNil}
+			case 1:
+				out[i] = mval{k: KBool, b: x%2 == 0}
+			case 2:
+				out[i] = mval{k: KInt, i: x}
+			case 3:
+				out[i] = mval{k: KFloat, f: float64(x) / 8}
+			default:
+				out[i] = mval{k: KString, s: fmt.Sprintf("s%d", x)}
+			}
+		}
+	}
+	return out
+}
+
 func (m *machine) maxListLen() int {
 	mx := 0
 	for _, n := range m.h.lists {
@@ -1085,15 +1193,18 @@ func genRawSlice(t *rapid.T, lo, hi int) []int {
 	return out
 }
 
-var listOpNames = []string{"addmany", "add", "insert", "replace", "delete", "deletemulti", "pop", "clear", "reverse", "sort", "sublist", "concat", "getters", "contains", "newlist", "newlistof", "newlistfrom", "sortrun"}
-var listOpWeights = []int{6, 22, 10, 7, 6, 3, 5, 1, 4, 5, 9, 9, 5, 6, 4, 2, 4, 4}
+var listOpNames = []string{"addmany", "add", "insert", "replace", "delete", "deletemulti", "pop", "clear", "reverse", "sort", "sublist", "concat", "getters", "contains", "newlist", "newlistof", "newlistfrom", "sortrun", "bulk"}
+var listOpWeights = []int{6, 22, 10, 7, 6, 3, 5, 1, 4, 5, 9, 9, 5, 6, 4, 2, 4, 4, 1}
 
-var objectOpNames = []string{"set", "unset", "oclear", "merge", "pluck", "ogetters", "ocontains", "newobject", "newobjectfrom", "bigunset"}
-var objectOpWeights = []int{24, 9, 1, 10, 9, 8, 8, 6, 5, 1}
+var objectOpNames = []string{"set", "unset", "oclear", "merge", "pluck", "ogetters", "ocontains", "newobject", "newobjectfrom", "bigunset", "bigset"}
+var objectOpWeights = []int{24, 9, 1, 10, 9, 8, 8, 6, 5, 1, 1}
 
 func genListOp(t *rapid.T) Op {
 	name := listOpNames[pick(t, "lop", listOpWeights...)]
 	op := Op{Op: name, T: drawInt(t, 0, 63, "t"), U: drawInt(t, 0, 63, "u"), A: genRaw(t), B: genRaw(t)}
+	if name == "bulk" && !oneIn(t, 3, "bulk") {
+		name = "addmany" // big lists make every later comparison expensive: about one program in twelve has one
+	}
 	switch name {
 	case "addmany":
 		op.Op = "add"
@@ -1109,6 +1220,8 @@ func genListOp(t *rapid.T) Op {
 		op.Idx = genRawSlice(t, 0, 3)
 	case "sortrun":
 		op.Vals = genHomogVals(t)
+	case "bulk":
+		op.Flavor = drawInt(t, 0, 2, "flavor")
 	}
 	return op
 }
@@ -1200,6 +1313,12 @@ func genObjectOp(t *rapid.T) Op {
 		op.Keys = genKeys(t, 1)
 	case "ocontains":
 		op.Vals = genVals(t, 1, 1, 3)
+	case "bigset":
+		op.Flavor = drawInt(t, 0, 2, "flavor")
+		if !oneIn(t, 3, "bigset") {
+			op.Op = "ogetters"
+			op.Keys = genKeys(t, 1)
+		}
 	}
 	return op
 }
